@@ -35,12 +35,23 @@ def close(y1, y2, tol, p):
     return ex.anyj(ex.rel_close(y1, y2, tol, p), ex.abs_close(y1, y2, -7 * p, p))
 
 
-def samereal(chk, mpmath, rng, table, tol, n, prop):
+def close_parts(y1, y2, tol, p):
+    """per-part relative closeness (the bound applies to each of the real and imaginary parts)"""
+    if not (hasattr(y1, "_mpc_") or hasattr(y2, "_mpc_")):
+        return close(y1, y2, tol, p)
+    z1, z2 = ex.c_of(y1), ex.c_of(y2)
+    part = lambda a, b: ex.anyj(ex.rel_close(a, b, tol, p), ex.abs_close(a, b, -7 * p, p))
+    return ex.allj(part(z1[0], z2[0]), part(z1[1], z2[1]))
+
+
+def samereal(chk, mpmath, rng, table, tol, n, prop, parts=(), hiprec=0.0):
     """table: list of (name, argument generator(rng) -> list of Fractions/complex pairs, caller(mp, args) -> value)"""
     mp = mpmath.mp
     for i in range(n):
         name, agen, call = rng.choice(table)
         p = rng.choice([20, 53, 53, 100, 200, rng.randint(10, 400)])
+        if rng.random() < hiprec:
+            p = rng.randint(400, 1300)            # bands between the algorithm cut-offs (600, 1000, ...)
         args = agen(rng)
         try:
             mp.prec = p
@@ -51,7 +62,8 @@ def samereal(chk, mpmath, rng, table, tol, n, prop):
             mp.prec = p
             if not (oblcommon.fin(y1) and oblcommon.fin(y2)):
                 yield None; continue
-            yield close(y1, y2, tol, p), {"key": "samereal/" + name, "f": name, "args": [str(a) for a in args], "p": p,
+            cmp_ = close_parts if name.split("-")[0] in parts else close
+            yield cmp_(y1, y2, tol, p), {"key": "samereal/" + name + ("/p>=600" if p >= 600 else ""), "f": name, "args": [str(a) for a in args], "p": p,
                                           "what": "values at precisions p and 2p+40 are not approximations of one number to 2^(%d-p)" % tol}
         except (ZeroDivisionError, ValueError, TypeError, NotImplementedError, OverflowError, mpmath.libmp.NoConvergence, mpmath.libmp.ComplexResult):
             yield None
